@@ -497,8 +497,13 @@ def solve_parallel(obligations, workers=None):
                 smt.export_query(a2, tac2, os.path.join(tmp, f"t{k}.smt2"))
                 jobs[(k, "twin")] = (os.path.join(tmp, f"t{k}.smt2"), min(ob.timeout_s, 60), {})
         out = {}
+        second = os.environ.get("VERIF_TIER") == "thorough" and os.path.exists(smt.Z3OLD)
         with cf.ThreadPoolExecutor(max_workers=workers) as ex:
             futs = {ex.submit(smt.run_external, path, to): key for key, (path, to, _) in jobs.items()}
+            if second:        # second solver (z3 4.8.12) on every goal query: verdicts are diffed, `unknown` is ignored
+                for key, (path, to, _) in jobs.items():
+                    if key[1] == "goal":
+                        futs[ex.submit(smt.run_external, path, min(to, 60), smt.Z3OLD)] = (key[0], "goal2")
             for f in cf.as_completed(futs):
                 out[futs[f]] = f.result()
         pre = {}
@@ -508,6 +513,11 @@ def solve_parallel(obligations, workers=None):
             v, secs, msg = out[(k, "goal")]
             info = dict(jobs[(k, "goal")][2])
             info["external"] = True
+            if (k, "goal2") in out:
+                info["second_solver"] = out[(k, "goal2")][0]
+                if {out[(k, "goal2")][0], v} == {"sat", "unsat"}:
+                    v = "unknown"          # the two solvers disagree: inconclusive, never success
+                    info["solver_disagreement"] = True
             tw = None
             if ob.twin and (k, "twin") in out:
                 tw = out[(k, "twin")][0]
@@ -782,6 +792,8 @@ class Check:
             syntactic_identities=sum(1 for r in solved if r.trivial),
             closed_by_simplifier=sum(1 for r in solved if r.detail == "simplifier"),
             twins_sat=sum(1 for r in solved if r.twin == "sat"),
+            second_solver=dict(binary="z3 4.8.12 (/usr/bin/z3), thorough tier only", agreed=sum(1 for r in solved if r.info.get("second_solver") == r.verdict),
+                               unknown=sum(1 for r in solved if r.info.get("second_solver") == "unknown"), disagreed=sum(1 for r in solved if r.info.get("solver_disagreement"))),
             solver_time_s=round(sum(r.seconds for r in solved), 3),
             slowest=[dict(obligation=r.ob.name, s=round(r.seconds, 2)) for r in sorted(solved, key=lambda r: -r.seconds)[:3]],
             functions_encoded=self.functions,
